@@ -3,6 +3,14 @@
    theorems (partial; see DESIGN.md section 7): it is exercised by the sanitizer runs of the check. *)
 Require Import LV.Common.Bytes LV.Gen.Gen_neg LV.Model.NegState LV.Model.NegModel LV.Spec.NegSpec LV.Proofs.NegProofs_C01.
 Local Open Scope Z_scope.
+Require LV.Spec.NegSkeleton LV.Proofs.NegSkeletonProof.
+
+(* translator tie: the handler registrations, time-out macros, call edges and reset assignments found in
+   auth.c / conn.c on this run are the ones the model's tables were written against *)
+Theorem registration_skeleton_as_modelled :
+  LV.Spec.NegSkeleton.skeleton_ok skeleton = true.
+Proof. exact LV.Proofs.NegSkeletonProof.skeleton_matches. Qed.
+Print Assumptions registration_skeleton_as_modelled.
 
 (* no NULL dereference / assert / unbounded recursion outcome (`Crash`) is reachable, whatever the
    server sends (any elements, any chunking into reads, at any stage) and whatever the user does *)
